@@ -46,6 +46,36 @@ def _init_worker():
     os.environ['XDG_CACHE_HOME'] = os.path.join(_worker['dir'], '.cache')
     import atexit
     atexit.register(lambda: shutil.rmtree(_worker['dir'], ignore_errors=True))
+    # TextIsScalar (Props/C01 §9): the Lean models hold text as `List Char`; note every loaded file that has a string outside
+    # that type (lone surrogates from raw_unicode_escape / unicode_escape), so that it is counted and decided by the falsifier alone
+    import polib
+    def watch(fn):
+        def loader(*a, **kw):
+            f = fn(*a, **kw)
+            try:
+                _worker['nonscalar'] = file_not_scalar(f)
+            except Exception:
+                _worker['nonscalar'] = None
+            return f
+        return loader
+    polib.pofile = watch(polib.pofile)
+    polib.mofile = watch(polib.mofile)
+
+SURROGATE_RE = re.compile('[\ud800-\udfff]')
+
+def file_not_scalar(f):
+    """does any string of a loaded polib file hold a code point that is not a Unicode scalar value?"""
+    def bad(x):
+        return isinstance(x, str) and SURROGATE_RE.search(x) is not None
+    if bad(getattr(f, 'header', '')) or any(bad(k) or bad(v) for k, v in (getattr(f, 'metadata', None) or {}).items()):
+        return True
+    for e in f:
+        for a in ('msgid', 'msgstr', 'msgctxt', 'msgid_plural', 'comment', 'tcomment', 'previous_msgid', 'previous_msgctxt', 'previous_msgid_plural'):
+            if bad(getattr(e, a, None)):
+                return True
+        if any(bad(v) for v in (getattr(e, 'msgstr_plural', None) or {}).values()) or any(bad(x) for x in (getattr(e, 'flags', None) or ())):
+            return True
+    return False
 
 def _site(tb):
     """innermost frame inside REPO/lib → 'lib/x.py:function'"""
@@ -122,6 +152,7 @@ def run_case(case):
         kw['file_type'] = opts['file_type']
     checker, calls = H.make_checker(path, **kw)
     out = {'idx': idx, 'ntags': 0}
+    _worker['nonscalar'] = False
     t0 = time.process_time()
     import warnings, io, contextlib
     err = io.StringIO()
@@ -141,6 +172,7 @@ def run_case(case):
         return out
     finally:
         out['cpu'] = time.process_time() - t0
+        out['nonscalar'] = _worker.get('nonscalar')
         try:
             os.unlink(path)
         except OSError:
@@ -298,6 +330,23 @@ def make_opts(rng):
 def hexs(s):
     return '.'.join('%x' % ord(c) for c in s) if s else '-'
 
+def route_scalar(chk, kind, strings):
+    """TextIsScalar: the Lean text type is `List Char`; a string with a lone surrogate cannot cross the line protocol faithfully.
+    Such strings (and a fixed set of them, so that the route is exercised on every run) go to the real check_string directly:
+    no exception may leave it.  Returns the scalar strings for the correspondence."""
+    scalar = [x for x in strings if not SURROGATE_RE.search(x)]
+    odd = [x for x in strings if SURROGATE_RE.search(x)] + ['\ud800', 'a \udc00 b', '%\ud800', '%(\udfff)s', '{\ud800}', '{0:\udc00}', '{a\ud800}', '%1$\ud800d', '%d \ud800 %s']
+    st = chk.coverage.setdefault('non_scalar_strings', {'note': 'strings with a lone surrogate: outside the Lean text type, decided on the real check_string alone', 'by_kind': {}})
+    st['by_kind'][kind] = len(odd)
+    for x in odd:
+        out = P.impl_string(kind, x)
+        chk.evaluations += 1
+        if not out.endswith(' -'):
+            chk.violation('check_string of the %s checker raised on a string with a lone surrogate' % kind,
+                          {'kind': 'crash', 'checker': kind, 'string_codepoints': [hex(ord(c)) for c in x][:80], 'observed': out, 'expected': 'a tag or nothing; no exception'},
+                          key='crash:nonscalar-string:' + kind)
+    return scalar
+
 def model_streams(chk, rng):
     """correspondence of the pipeline model with the real code (scripted collaborators): see pipeline_common.py"""
     big = chk.thorough
@@ -326,15 +375,19 @@ def model_streams(chk, rng):
             n = 20000 if big else 2500
             cs = GC.boundary_strings() + GC.context_strings() + [GC.gen_string(rng) if rng.random() < 0.7 else GC.mutate(rng, GC.gen_string(rng)) for _ in range(n)] + HG.CFMT
             cs = [x for x in cs if x and len(x) < 3000]
+            cs = route_scalar(chk, 'c', cs)
             chk.stream('pipeline-cstring', ['pipeline cstring ' + hexs(x) for x in cs], [P.impl_string('c', x) for x in cs])
             ps = GP.boundary_strings() + GP.context_strings() + [GP.gen_string(rng) if rng.random() < 0.7 else GP.mutate(rng, GP.gen_string(rng)) for _ in range(n)] + HG.PYFMT
             ps = [x for x in ps if x and len(x) < 3000]
+            ps = route_scalar(chk, 'python', ps)
             chk.stream('pipeline-pystring', ['pipeline pystring ' + hexs(x) for x in ps], [P.impl_string('python', x) for x in ps])
             bs = GB.boundary_strings() + GB.fixed_singles() + [GB.gen_string(rng) if rng.random() < 0.6 else GB.mutate(rng, GB.gen_string(rng)) for _ in range(n)] + [GB.gen_clash(rng) for _ in range(n // 10)] + HG.BRACE
             bs = [x for x in bs if x and len(x) < 3000]
+            bs = route_scalar(chk, 'python-brace', bs)
             chk.stream('pipeline-pybstring', ['pipeline pybstring ' + hexs(x) for x in bs], [P.impl_string('python-brace', x) for x in bs])
             qs = [GB.gen_perl(rng) for _ in range(n // 2)] + [GB.mutate(rng, GB.gen_perl(rng)) for _ in range(n // 4)] + HG.PERL
             qs = [x for x in qs if x and len(x) < 3000]
+            qs = route_scalar(chk, 'perl-brace', qs)
             chk.stream('pipeline-perlstring', ['pipeline perlstring ' + hexs(x) for x in qs], [P.impl_string('perl-brace', x) for x in qs])
     except common.Infra:
         raise
@@ -399,8 +452,11 @@ def main():
     tagcount = collections.Counter()
     crashes = {}
     slow = []
+    nonscalar = collections.Counter()
     def on_result(r):
         stats[r['kind']] += 1
+        if r.get('nonscalar'):
+            nonscalar[descr.get(r['idx'], '?').split(':')[0].split(' ')[0]] += 1
         for t in r.get('tags', ()):
             tagcount[t] += 1
         if r['kind'] in ('crash', 'badline', 'hang'):
@@ -412,7 +468,9 @@ def main():
     run_cases(cases, workers, on_result)
     chk.evaluations += len(cases)
     chk.note_cases(tagcount.keys())
-    chk.coverage['in_process'] = {'files': len(cases), 'by_generator': dict(kinds), 'sweeps': sweep_counts, 'outcomes': dict(stats), 'distinct_tags_emitted': len(tagcount),
+    chk.coverage['in_process'] = {'files': len(cases), 'by_generator': dict(kinds), 'sweeps': sweep_counts,
+                                  'loaded_text_not_scalar': {'files': sum(nonscalar.values()), 'by_source': dict(nonscalar), 'note': 'files with a lone surrogate in a loaded string: outside the List Char text '
+                                                             'type of the Lean models (TextIsScalar, Props/C01 §9); decided by this search alone'}, 'outcomes': dict(stats), 'distinct_tags_emitted': len(tagcount),
                                   'tags_emitted': dict(tagcount.most_common()), 'slowest_cpu_s': sorted(slow, reverse=True)[:5],
                                   'size_bytes': {'max': max(len(c[1]) for c in cases), 'mean': sum(len(c[1]) for c in cases) // len(cases)}}
     for key, rs in crashes.items():
@@ -474,6 +532,17 @@ def main():
             wd.write('race/p%d.po' % k, HG._wrap(HG._msg('', 'a%d' % k, 'b'), plural_forms='nplurals=2; plural=n != 1;'))
         for k in range(40 if chk.thorough else 12):
             runs.append((['-j', '6'] + ['race/p%d.po' % i for i in range(6)], '-j 6 with a fresh cache directory', 'ok', {'XDG_CACHE_HOME': os.path.join(wd.path, 'fresh-cache-%d' % k)}))
+        # codec exotica through the real command line: stdout is a pipe; the terminal encodings that cannot take a surrogate
+        exo = [c for c in cases if descr.get(c[0], '').startswith('exotica:')]
+        exo_sur = [c for c in exo if 'surrogate' in descr[c[0]]]
+        pick = rng.sample(exo_sur, min(len(exo_sur), 60 if chk.thorough else 24)) + rng.sample(exo, min(len(exo), 40 if chk.thorough else 12))
+        for k, (idx, data, ext, opts) in enumerate(pick):
+            name = 'exo/e%d%s' % (k, ext)
+            wd.write(name, data)
+            env = [None, {'PYTHONIOENCODING': 'utf-8:strict'}, {'LC_ALL': 'C', 'LANG': 'C'}, {'PYTHONIOENCODING': 'latin-1'}][k % 4]
+            runs.append(([name], descr[idx], 'ok') + ((env,) if env else ()))
+        if pick:
+            runs.append((['-j', '2'] + ['exo/e%d%s' % (k, c[2]) for k, c in enumerate(pick[:6])], 'codec exotica, -j 2', 'ok'))
         n_special = len(runs)
         sample = rng.sample(cases, min(n_cli, len(cases)))
         for k, (idx, data, ext, opts) in enumerate(sample):
@@ -652,7 +721,7 @@ def main():
                ('a b', lambda n: 'a b ' * (n // 4)), ('{0[', lambda n: '{0' + '[a]' * (n // 3)), ('%(', lambda n: '%(' * (n // 2)), ('n+', lambda n: 'n+' * min(n // 2, 150) + 'n' + ' ' * n)]
     generic = [('(', lambda n: '(' * n), ('(x)', lambda n: 'a@b.c (' + '(x)' * (n // 3))] + generic
     if not chk.thorough:
-        generic = generic[:4] + rng.sample(generic[4:], 2)
+        generic = generic[:3] + rng.sample(generic[3:], 1)
     sizes = (4000, 64000) if chk.thorough else (2000, 16000)
     sweep = []
     swdeps = {}
@@ -708,7 +777,7 @@ def main():
         chk.violation('proof obligation no longer checks', {'broken': chk.broken}, no_input=True)
     chk.finish(
         level='proof',
-        rule='in-process: corpus/C01 witnesses + table sweeps (every row of data/languages x language sources, characters, iso codes, charsets, header fields, string formats, timezones, control characters, '
+        rule='in-process: corpus/C01 witnesses + codec-exotica sweep (every accepted codec that decodes ASCII bytes to surrogates / NUL / noncharacters / non-ASCII, each probe in 54 slots, PO and MO) + MO cut at every length + table sweeps (every row of data/languages x language sources, characters, iso codes, charsets, header fields, string formats, timezones, control characters, '
              'special domains, read from the loaded tool) + character-class sweeps (every str.isspace character as a line at 11 positions and as separator in 18 slots, every non-ASCII str.isdigit '
              'character in 17 numeric slots) + byte-mutated black-box corpus + slot-grammar files (header fields incl. X-Poedit-* and malformed names, flags, format strings of the four kinds, '
              'plural declarations with boundary numerals / 4300-4301 digits / nesting 3..1500, 130 charset names incl. the tool\'s own, non-ASCII-compatible and non-text codecs, bodies encoded in the '
@@ -722,6 +791,7 @@ def main():
                  'the models of Checker.check, cli.main/check_all/check_file/check_deb and check_string are compared with the REAL functions under scripted collaborators '
                  '(streams pipeline-check, -main, -file, -cstring, -pystring, -pybstring, -perlstring), not proved equal to them',
                  'component theorems used (C02, C04-C07, C09-C20) are tied to the source by their own checks, not re-tied here',
+                 'TextIsScalar: the composed models hold text as List Char (no lone surrogates); loaded files outside that type are counted (coverage.in_process.loaded_text_not_scalar) and decided by the search alone',
                  'pipeline_nocrash_unconditional has no hypothesis about any loader or stage; it assumes, by name, facts about the world outside the checked file: WorldOk (plural registry = the shipped one, '
                  'kernel-checked clean by C07; C20\'s charset fragment total; expat raises only ExpatError; the format checkers get the message\'s own strings), Po.CodecsBehave (a codec the tool classified as '
                  'ASCII-compatible raises only UnicodeError; ISO-8859-1 decodes every byte string) and C09.Latin1OK; worldOk_live derives WorldOk for the generated tables from two third-party contracts',
@@ -735,7 +805,7 @@ def main():
                     'pipeline_nocrash_unconditional (every Pending field discharged: loaders = C09 Mo.parse and C10 Po.load (Lemmas/PoNoCrash: closed outcome set), stages = C17\'s Meta.Real.pipeline with the models of '
                     'C15, C19, C04-C07, C20, C18, C16, C14 over the parsers of C11/C12/C13 (Lemmas/PipelineBrace, PipelineReal): status 0, empty stderr, only tag lines for every list of arguments incl. ARBITRARY '
                     'byte strings as MO/PO/POT, every accepted -l, every -j), real_mo_nocrash, real_po_nocrash, worldOk_live, pipeline_crash_visible, '
-                    'line_is_tag_line (C02), recursion_budget; the trusted data tables as obligations over Generated files regenerated by this check: registry_parses_strictly (C07 shipped_registry_clean), registry_language_nocrash, tags_registered, locale_tables_sane, charset_tables_sane, timezone_table_sane, message_tables_sane. OUTSTANDING: nothing about a stage; the world contracts named under trusted_base; any theorem about time; recursion depth (REFUTED on the real code: open finding '
+                    'line_is_tag_line (C02), recursion_budget; the encode step in front of expat and the TextIsScalar gap (check_fragment_sane, check_fragment_strict_refuted, xml_encode_site_pin, model_text_is_scalar, strict_encode_never_fails_on_model_text); the trusted data tables as obligations over Generated files regenerated by this check: registry_parses_strictly (C07 shipped_registry_clean), registry_language_nocrash, tags_registered, locale_tables_sane, charset_tables_sane, timezone_table_sane, message_tables_sane. OUTSTANDING: nothing about a stage; the world contracts named under trusted_base; any theorem about time; recursion depth (REFUTED on the real code: open finding '
                     'crash:RecursionError:lib/intexpr.py, plural expressions nested deeper than ~490, replayed from corpus/C01 on every run). '
                     'TEST (this run): %d in-process files, %d command-line runs, %d size-doubling families, %d regexes screened (%d repeats pumped), %d slot-sweep files. '
                     'FIXED by this check\'s findings in /repo: 4ff67ee, d16b49e, 875595a (+ recorded 2f85d76, 9de4551).'
